@@ -102,7 +102,7 @@ def run(module, cfg, work, *, workers=16, simulate=None, depth=None, seed=None,
         mm = re.search(r"(\d+) states checked", out)
         if mm:
             r.generated = r.distinct = int(mm.group(1))
-    mv = re.search(r"Error: Invariant (\S+) is violated", out) or \
+    mv = re.search(r"Error: (?:Invariant|Property) (\S+) is violated", out) or \
         re.search(r"Error: Action property (\S+) is violated", out) or \
         re.search(r"Error: Temporal properties were violated", out)
     if mv:
@@ -158,7 +158,8 @@ def tla(v):
     if isinstance(v, int):
         return str(v)
     if isinstance(v, str):
-        return '"' + v.replace("\\", "\\\\").replace('"', '\\"') + '"'
+        return ('"' + v.replace("\\", "\\\\").replace('"', '\\"').replace("\n", "\\n")
+                .replace("\t", "\\t").replace("\r", "\\r").replace("\f", "\\f") + '"')
     if isinstance(v, (list, tuple)):
         return "<<" + ", ".join(tla(x) for x in v) + ">>"
     if isinstance(v, (set, frozenset)):
